@@ -161,7 +161,7 @@ type rpcRequest struct {
 	Classes   []string             `json:"class_hashes"`
 	Contracts []string             `json:"contract_addresses"`
 	Storage   []rpcStorageKeysJSON `json:"contracts_storage_keys"`
-	ChainSeed uint64               `json:"chain_seed"`
+	Chain     rpcChain             `json:"chain"`
 }
 
 type rpcStorageKeysJSON struct {
@@ -219,67 +219,83 @@ func callStorageProof(version string, h9 *rpcv9.Handler, h10 *rpcv10.Handler, cl
 	return b, nil, err
 }
 
+// rpcChain identifies one generated chain and destination node (enough to rebuild it for a replay).
+type rpcChain struct {
+	Seed      uint64 `json:"chain_seed"`
+	NoClasses bool   `json:"no_classes"`
+	SrcNew    bool   `json:"source_new_state_backend"`
+	DstNew    bool   `json:"new_state_backend"`
+	Blocks    int    `json:"blocks"`
+}
+
 func (c *ctx) rpcSection(r *lib.RNG, out chan<- batch) {
-	res := c.res
 	chains := c.f.Scale(2, 8)
 	blocks := c.f.Scale(12, 40)
 	var wg sync.WaitGroup
 	for ci := 0; ci < chains; ci++ {
 		for _, newState := range []bool{false, true} {
-			seed := r.Uint64()
+			// even chains never declare classes: the classes trie stays empty across the 0.14.0
+			// switch of the state commitment formula
+			ch := rpcChain{Seed: r.Uint64(), NoClasses: ci%2 == 0, SrcNew: ci%2 == 1, DstNew: newState, Blocks: blocks}
 			wg.Add(1)
-			go func(ci int, newState bool, seed uint64) {
+			go func() {
 				defer wg.Done()
-				gr := lib.NewRNG(seed)
-				opt := lib.DefaultGenOptions()
-				// even chains never declare classes: the classes trie stays empty across the 0.14.0
-				// switch of the state commitment formula
-				opt.NoClasses = ci%2 == 0
-				g := lib.NewChainGen(gr, ci%2 == 1, opt)
-				dst, _ := lib.NewNode(g.Net, newState)
-				h9 := rpcv9.New(dst, nil, nil, log.NewNopZapLogger())
-				h10 := rpcv10.New(dst, nil, nil, log.NewNopZapLogger())
-				for bi := 0; bi < blocks; bi++ {
-					// the first third of the chain predates 0.14.0
-					spec := &lib.BlockSpec{}
-					switch {
-					case bi < blocks/3:
-						spec.Version = lib.Pick(gr, []string{"0.13.2", "0.13.4"})
-						if bi > 0 && g.Head().Block.ProtocolVersion == "0.13.4" {
-							spec.Version = "0.13.4"
-						}
-					case bi < 2*blocks/3:
-						spec.Version = "0.14.0"
-					default:
-						spec.Version = "0.14.1"
-					}
-					b, err := g.Next(spec)
-					if err != nil {
-						res.Note("rpc: chain generator: %v", err)
-						return
-					}
-					if err := lib.StoreOn(dst, b); err != nil {
-						res.Note("rpc: store block %d: %v", bi, err)
-						return
-					}
-					if bi != 0 && bi != blocks-1 && bi != blocks/3 && !gr.Chance(1, 2) {
-						continue
-					}
-					for _, version := range []string{"v9", "v10"} {
-						for q := 0; q < 2; q++ {
-							c.rpcQuery(gr, g, version, newState, seed, h9, h10, out)
-						}
-					}
-				}
-			}(ci, newState, seed)
+				c.runRPCChain(ch, out)
+			}()
 		}
 	}
 	wg.Wait()
 }
 
-func (c *ctx) rpcQuery(r *lib.RNG, g *lib.ChainGen, version string, newState bool, seed uint64,
+// runRPCChain generates the chain, stores it on the destination node and queries the head.
+func (c *ctx) runRPCChain(ch rpcChain, out chan<- batch) {
+	res := c.res
+	gr := lib.NewRNG(ch.Seed)
+	opt := lib.DefaultGenOptions()
+	opt.NoClasses = ch.NoClasses
+	g := lib.NewChainGen(gr, ch.SrcNew, opt)
+	dst, _ := lib.NewNode(g.Net, ch.DstNew)
+	h9 := rpcv9.New(dst, nil, nil, log.NewNopZapLogger())
+	h10 := rpcv10.New(dst, nil, nil, log.NewNopZapLogger())
+	blocks := ch.Blocks
+	for bi := 0; bi < blocks; bi++ {
+		// the first third of the chain predates 0.14.0
+		spec := &lib.BlockSpec{}
+		switch {
+		case bi < blocks/3:
+			spec.Version = lib.Pick(gr, []string{"0.13.2", "0.13.4"})
+			if bi > 0 && g.Head().Block.ProtocolVersion == "0.13.4" {
+				spec.Version = "0.13.4"
+			}
+		case bi < 2*blocks/3:
+			spec.Version = "0.14.0"
+		default:
+			spec.Version = "0.14.1"
+		}
+		b, err := g.Next(spec)
+		if err != nil {
+			res.Note("rpc: chain generator: %v", err)
+			return
+		}
+		if err := lib.StoreOn(dst, b); err != nil {
+			res.Note("rpc: store block %d: %v", bi, err)
+			return
+		}
+		if bi != 0 && bi != blocks-1 && bi != blocks/3 && !gr.Chance(1, 2) {
+			continue
+		}
+		for _, version := range []string{"v9", "v10"} {
+			for q := 0; q < 2; q++ {
+				c.rpcQuery(gr, g, version, ch, h9, h10, out)
+			}
+		}
+	}
+}
+
+func (c *ctx) rpcQuery(r *lib.RNG, g *lib.ChainGen, version string, chain rpcChain,
 	h9 *rpcv9.Handler, h10 *rpcv10.Handler, out chan<- batch,
 ) {
+	newState, seed := chain.DstNew, chain.Seed
 	res := c.res
 	st := g.HeadState()
 	head := g.Head()
@@ -326,7 +342,7 @@ func (c *ctx) rpcQuery(r *lib.RNG, g *lib.ChainGen, version string, newState boo
 		storage = append(storage, rpcStorageKeysJSON{Contract: "0x" + fhex(&a), Keys: feltsHex(keys)})
 	}
 	req := rpcRequest{Version: version, NewState: newState, Block: head.Block.Number, Protocol: head.Block.ProtocolVersion,
-		Classes: feltsHex(classes), Contracts: feltsHex(contracts), Storage: storage, ChainSeed: seed}
+		Classes: feltsHex(classes), Contracts: feltsHex(contracts), Storage: storage, Chain: chain}
 	res.Case(fmt.Sprintf("rpc/%s/%v/%d/%d", version, newState, seed, head.Block.Number), true)
 	res.Hit(fmt.Sprintf("rpc:%s:backend-new=%v", version, newState))
 	res.Hit("rpc:protocol-" + head.Block.ProtocolVersion)
